@@ -142,6 +142,8 @@ pub struct RecGen {
     /// probability (percent) that a description is separated from the id by a
     /// TAB instead of a blank (C06 only: the id is the first *word*)
     pub tab_desc_pct: u64,
+    /// probability (percent) that a record reuses the id of the record before it
+    pub dup_id_pct: u64,
 }
 
 const ALPHAS: [Alpha; 7] = [
@@ -197,11 +199,12 @@ impl RecGen {
             if !desc.is_empty() && rng.below(100) < self.tab_desc_pct {
                 desc = format!("\t{desc}");
             }
-            out.push(Rec {
-                id: gen_id(rng, i),
-                desc,
-                seq,
-            });
+            let id = if i > 0 && rng.below(100) < self.dup_id_pct {
+                out[i - 1].id.clone()
+            } else {
+                gen_id(rng, i)
+            };
+            out.push(Rec { id, desc, seq });
         }
         // now and then one record far longer than the rest, so that listings,
         // rows and lines cross the 4 KiB / 8 KiB buffer sizes used along the way
@@ -210,7 +213,7 @@ impl RecGen {
             // mostly a few kb; one time in five beyond 16 KiB (slice / chunk sizes
             // of 2^14 are a natural choice for "process long records in pieces")
             let len = if rng.chance(1, 5) {
-                rng.usize(16385, 42000)
+                rng.usize(16385, 70000)
             } else {
                 rng.usize(1500, 9000)
             };
